@@ -27,3 +27,46 @@ Proof.
   unfold check_forge, obs_matches. rewrite !andb_true_iff, !N.eqb_eq, fields_eqb_eq, negb_true_iff.
   intros [[[[A B] C] D] [[E F] G]]. repeat split; assumption.
 Qed.
+
+(** [seq] cases.  An accepted bulk observation consists of observations of authentic messages
+    of the sequence only; an accepted step observation yields per message at most one item,
+    which is the authentic content of that very message. *)
+Lemma obs_eqb_eq (a b : obs) : obs_eqb a b = true -> a = b.
+Proof.
+  destruct a as [[p t] x], b as [[p' t'] x']. unfold obs_eqb.
+  rewrite !andb_true_iff, !N.eqb_eq. intros [[A B] C]. subst. reflexivity.
+Qed.
+
+Lemma subseq_obs_sound (auth ys : list obs) :
+  subseq_obs auth ys = true -> Forall (fun y => In y auth) ys.
+Proof.
+  revert ys. induction auth as [|a auth IH]; intros ys; destruct ys as [|y ys]; cbn [subseq_obs];
+    try (intros; constructor; fail); try discriminate.
+  destruct (obs_eqb y a) eqn:E; intros H.
+  - apply obs_eqb_eq in E. subst. constructor; [left; reflexivity|].
+    eapply Forall_impl; [|exact (IH _ H)]. cbn beta. intros z Hz. right. exact Hz.
+  - eapply Forall_impl; [|exact (IH _ H)]. cbn beta. intros z Hz. right. exact Hz.
+Qed.
+
+Lemma check_bulk_sound (specs : list seq_spec) (ys : list obs) :
+  check_bulk specs ys = true ->
+  Forall (fun y => exists s, In s specs /\ spec_authentic s = true /\ y = spec_obs s) ys.
+Proof.
+  unfold check_bulk. intros H. apply subseq_obs_sound in H.
+  eapply Forall_impl; [|exact H]. cbn beta. intros y Hy.
+  apply in_map_iff in Hy. destruct Hy as [s [A B]]. apply filter_In in B.
+  exists s. destruct B. auto.
+Qed.
+
+Lemma check_step_sound (specs : list seq_spec) (ys : list (list obs)) :
+  check_step specs ys = true ->
+  Forall2 (fun s g => g = [] \/ (g = [spec_obs s] /\ spec_authentic s = true)) specs ys.
+Proof.
+  revert ys. induction specs as [|[[[signer f1] f2] sigmut] specs IH]; intros ys; destruct ys as [|g ys];
+    cbn [check_step]; try discriminate; [constructor|].
+  rewrite andb_true_iff. intros [A B]. constructor; [|exact (IH _ B)].
+  destruct g as [|[[p t] b] [|o' g]]; [left; reflexivity| |discriminate].
+  right. apply check_forge_sound in A. destruct A as [S [F [K [V [P [T Bd]]]]]]. subst.
+  split; [reflexivity|]. unfold spec_authentic. rewrite V, !N.eqb_refl.
+  cbn [negb andb]. rewrite andb_true_r. apply fields_eqb_eq. reflexivity.
+Qed.
